@@ -5,6 +5,7 @@ from collections import Counter
 
 import numpy as np
 import onnx
+from onnx import helper
 
 from vf import compare, modelgen, optcommon, wellformed
 from vf.hyp import drive, st
@@ -87,6 +88,9 @@ def make_rule(name):
 
         kw["condition_function"] = fresh_float
         return pattern.RewriteRule(lambda op, x: op.Abs(x), repl, **kw)
+    if name == "mul_softmax_fn":
+        # extracted function bodies differ from instance to instance (the matched Softmax's axis): overload bookkeeping matters
+        return pattern.RewriteRule(lambda op, x, y: op.Softmax(op.Mul(x, y)), lambda op, x, y: op.MulSoftmax(x, y, _domain="verif.fn"), as_function=True, **kw)
     if name == "sub_scaled":
         # x - y  ->  x * 1 + y * (-1) (bit-exact in IEEE arithmetic); the replacement creates TWO initializers whose names derive from
         # the bound values: with x and y bound to the same value the names coincide while the tensors differ
@@ -115,7 +119,7 @@ def touched_ops(rule):
     if base.startswith(("reemit_", "swap_")):
         return {base.split("_")[1]}
     return {"split_first": {"Split"}, "mul_sub": {"Mul", "Sub"}, "mul_sub_fn": {"Mul", "Sub", "MulSub"}, "neg_abs": {"Neg", "Abs"}, "neg_abs_fn": {"Neg", "Abs", "NegAbs"}, "neg_and_abs": {"Neg", "Abs"}, "transpose3": {"Transpose"},
-            "abs_plus_zero_init": {"Abs", "Add"}, "identity_identity": {"Identity"}, "sub_scaled": {"Sub", "Add", "Mul"}}[base]
+            "abs_plus_zero_init": {"Abs", "Add"}, "identity_identity": {"Identity"}, "sub_scaled": {"Sub", "Add", "Mul"}, "mul_softmax_fn": {"Mul", "Softmax", "MulSoftmax"}}[base]
 
 
 # ----------------------------------------------------------------------------- structural scans (independent of the rewriter)
@@ -167,7 +171,7 @@ def instance_exists(model, rule):
             for n in std:
                 if n.op_type == "Transpose" and any(a.name == "perm" and list(a.ints) == [1, 0] for a in n.attribute):
                     return where
-        elif base in ("abs_plus_zero_init", "sub_scaled"):
+        elif base in ("abs_plus_zero_init", "sub_scaled", "mul_softmax_fn"):
             pass  # needs the dtype of x: no completeness claim for this rule
         elif base in ("neg_abs", "neg_abs_fn", "identity_identity", "mul_sub", "mul_sub_fn"):
             inner, outer = ("Mul", "Sub") if base.startswith("mul_sub") else ("Abs", "Neg") if base != "identity_identity" else ("Identity", "Identity")
@@ -249,8 +253,20 @@ def check(model, rule, entry, commute, feeds_list):
         lost_used = [x for x in lost if True]
         if gained or (lost_used and not _only_dead_removed(model, new, t)):
             verdicts.append((f"unmatched_nodes_changed:{rule}", f"lost {[(x[0], x[2]) for x in lost]} gained {[(x[0], x[2]) for x in gained]}"))
-    src = compare.Source(model)
-    v, d = compare.decide(src, new, feeds_list)
+    # (functions with overload names calling one another are valid ONNX that neither runtime loads: such models are executed after
+    #  onnx's own inliner - part of the trusted base - has expanded the model-local functions)
+    def runnable(m):
+        if any(f.overload for f in m.functions):
+            import onnx.inliner
+
+            try:
+                return onnx.inliner.inline_local_functions(m)
+            except Exception:  # noqa: BLE001
+                return m
+        return m
+
+    src = compare.Source(runnable(model))
+    v, d = compare.decide(src, runnable(new), feeds_list)
     info["verdict"] = v
     if v.startswith("violation"):
         verdicts.append((f"{v}:{rule}", d))
@@ -447,7 +463,71 @@ def run_shard(spec):
                                            "text": modelgen.model_text(gm.model, 3000), "feeds": [optcommon.feeds_to_json(f) for f in feeds_list]}, size=gm.n_nodes)
 
     drive(st.tuples(st.sampled_from(RULES), st.sampled_from(["proto", "ir", "apply", "apply"]), st.booleans(), modelgen.models(CFG)), body, spec["n"], spec["seed"])
+
+    def hist_body(case):
+        """A model that HAS BEEN rewritten before by an as_function rule: heads Softmax<axis_i>(a_i * b_i) are extracted (rewrite 1), one
+        head is dropped and the now unused function removed with the stock dead-code passes, a new head is appended; rewrite 2 is the case
+        under test (the functions left by rewrite 1 are 'other functions' of its input and must survive)."""
+        axes, drop, new_axis, entry = case
+        m0 = _heads_model(axes)
+        feeds = [_heads_feeds(k) for k in range(3)]
+        stages = [("fresh", m0)]
+        r = apply(m0, "mul_softmax_fn", "proto", False)
+        if r[0] == "ok":
+            m1 = _drop_and_add_head(r[2], drop, new_axis, len(axes))
+            if m1 is not None and not wellformed.check_model(m1):
+                stages.append(("rewritten_before", m1))
+        for tag, m in stages:
+            verdicts, info = check(m, "mul_softmax_fn", entry, False, feeds)
+            col.case(("mul_softmax_fn", tag, tuple(axes), drop, new_axis, entry), bool(info.get("applied")),
+                     ["rule:mul_softmax_fn", "history:" + tag, "entry:" + entry, "applied:%s" % bool(info.get("applied"))],
+                     sample={"rule": "mul_softmax_fn", "history": tag, "model": modelgen.model_text(m, 900)})
+            for bucket, detail in verdicts:
+                col.violation(bucket, detail, {"rule": "mul_softmax_fn", "entry": entry, "commute": False, "model": optcommon.model_to_json(m),
+                                               "text": modelgen.model_text(m, 3000), "feeds": [optcommon.feeds_to_json(f) for f in feeds]}, size=len(m.graph.node))
+
+    drive(st.tuples(st.lists(st.sampled_from([0, 1, -1]), min_size=2, max_size=3), st.integers(0, 2), st.sampled_from([0, 1, -1]), st.sampled_from(["proto", "ir", "apply"])),
+          hist_body, max(4, spec["n"] // 12), spec["seed"] + 1)
     return col.result()
+
+
+def _heads_model(axes):
+    vi = lambda n: helper.make_tensor_value_info(n, onnx.TensorProto.FLOAT, [3, 3])  # noqa: E731
+    names = ["a", "b", "c", "d"]
+    nodes, outs = [], []
+    for i, ax in enumerate(axes):
+        nodes += [helper.make_node("Mul", [names[i], names[i + 1]], [f"m{i}"]), helper.make_node("Softmax", [f"m{i}"], [f"y{i}"], axis=ax)]
+        outs.append(vi(f"y{i}"))
+    g = helper.make_graph(nodes, "heads", [vi(n) for n in names[: len(axes) + 1]], outs)
+    return helper.make_model(g, opset_imports=[helper.make_opsetid("", 18)], ir_version=10)
+
+
+def _heads_feeds(k):
+    rng = np.random.default_rng(100 + k)
+    return {n: rng.normal(size=(3, 3)).astype(np.float32) for n in ["a", "b", "c", "d"]}
+
+
+def _drop_and_add_head(model, drop, new_axis, n_heads):
+    """Public API only: drop one graph output, run the stock dead-code passes, append a new instance of the pattern."""
+    import onnx_ir as ir
+    import onnx_ir.passes.common as ir_passes
+
+    m = onnx.ModelProto()
+    m.CopyFrom(model)
+    drop = drop % n_heads
+    kept = [o for o in m.graph.output if o.name != f"y{drop}"]
+    if len(kept) == len(m.graph.output):
+        return None
+    del m.graph.output[:]
+    m.graph.output.extend(kept)
+    try:
+        m = ir.to_proto(ir.passes.PassManager([ir_passes.RemoveUnusedNodesPass(), ir_passes.RemoveUnusedFunctionsPass()])(ir.from_proto(m)).model)
+    except Exception:  # noqa: BLE001
+        return None
+    src = kept[0].name
+    m.graph.node.extend([helper.make_node("Mul", [src, "a"], ["m_new"]), helper.make_node("Softmax", ["m_new"], ["y_new"], axis=new_axis)])
+    m.graph.output.append(helper.make_tensor_value_info("y_new", onnx.TensorProto.FLOAT, [3, 3]))
+    return m
 
 
 def replay(case):
